@@ -79,3 +79,20 @@ MANIFEST_TEXT["C03"] = dict(engine="E-input", design_ref="DESIGN.md §4 C03",
     level_text="Every run list of up to 2 (3) runs over magnitudes 1..2^63 with total length up to usize::MAX, block-shape families reaching 1/8/9/many blocks, early-closed blocks and a first block without unset bits, "
                "and every bit string up to 10/13 bits; all ten operations plus run_iter at every structural edge.",
     level_note="Trusts the reference model; vectors with more than ~1300 runs are not explored.")
+
+PROPS["C04"] = dict(
+    driver="c04", builds=["rel", "dbg"], level="exploration",
+    rule="E-input: (a) every vector of length 0..=L over the full alphabet 0..2^w for small (w, L); (b) every vector of length <= 4 (<= 2 for the widest) over the sparse alphabet {0, 1, 2^(k-1)-1, 2^(k-1), 2^k-1} for k up to 16; "
+         "each built from Vec<u64> and from every narrower item type that can hold the values (u8/u16/u32/usize), which must give equal matrices and cores with identical bytes. Queries: len, width, get, iter, into_iter, "
+         "inverse_select at every index <= len+1 and A(len); for every value of the alphabet (or the present values and their neighbours) plus max+1, 2^w, 2^w+1, 2^63, u64::MAX: contains, value_iter, rank / predecessor / successor at every "
+         "index, select / select_iter at every rank <= count+1 and A(.); core: map_down, map_down_with, map_down_with_two_positions, map_up_with against the stable sort by reversed bit representation. "
+         "Non-trivial = at least two distinct values; distinct by hashed vector.",
+    bounds={"quick": "(w,L) in (1,8) (2,5) (3,4) (4,3); k <= 8 at depth 4, k in {12,16} at depth 2", "thorough": "(w,L) in (1,12) (2,7) (3,5) (4,4); k <= 16 at depth 4"},
+    require_counters={"quick": {"vectors_with_missing_alphabet_values": 100}, "thorough": {"vectors_with_missing_alphabet_values": 100}},
+    assumptions=[HOOK_ASSUMPTION, "reference = Vec<u64> with linear scans", "widths above 16 with dense alphabets and vectors longer than 12 are not explored"],
+)
+MANIFEST_TEXT["C04"] = dict(engine="E-input", design_ref="DESIGN.md §4 C04",
+    technique="bounded exhaustive input enumeration on the real code (all vectors over small alphabets, sparse alphabets up to width 16, five item types) against a Vec<u64> reference",
+    level_text="Every vector up to the stated (width, length) scopes and every short vector over sparse alphabets up to width 16, through all five item types, with every (index, rank, value) argument incl. absent and out-of-alphabet values; "
+               "the core mapping is compared with the stable sort by reversed bit representation.",
+    level_note="Trusts the naive reference; long vectors and dense wide alphabets are not explored.")
